@@ -1,0 +1,27 @@
+//go:build verif
+
+package cas
+
+import (
+	"fmt"
+	"sort"
+)
+
+// VerifInputrootCacheKeys returns the sorted keys that are currently
+// memoised by a DirectoryFetcher created through
+// NewCachingDirectoryFetcher(), together with its size accounting. It
+// only exists in builds that carry the "verif" tag and is used by the
+// model checking harness in /verif/harness/inputroot (property C17) to
+// make the cache part of the explored state. No locks are taken: the
+// caller guarantees that the fetcher is not in use.
+func VerifInputrootCacheKeys(df DirectoryFetcher) (keys []string, objectsSizeBytes int64, ok bool) {
+	c, ok := df.(*cachingDirectoryFetcher)
+	if !ok {
+		return nil, 0, false
+	}
+	for k, o := range c.objects {
+		keys = append(keys, fmt.Sprintf("%s/%t/%d", k.DigestKey, k.IsTreeRoot, o.sizeBytes))
+	}
+	sort.Strings(keys)
+	return keys, c.objectsSizeBytes, true
+}
